@@ -1,0 +1,18 @@
+//go:build verif
+
+package encode
+
+import (
+	"fmt"
+	"math"
+)
+
+// VerifGlobals serialises every package-level variable of this package. It
+// exists only under the verif build tag and is used by external monitors to
+// observe that no operation writes to package-level data.
+func VerifGlobals() []byte {
+	return []byte(fmt.Sprintf("%08x|%08x|%v|%q|%q|%q|%q",
+		math.Float32bits(negativeInfinity), math.Float32bits(positiveInfinity), drawOps,
+		string(errDrawingOpsUsedInStylingMode), string(errInvalidSelectorAdjustment),
+		string(errInvalidIncrementingAdjustment), string(errStylingOpsUsedInDrawingMode)))
+}
